@@ -2,6 +2,7 @@ package main
 
 import (
 	"fmt"
+	"sort"
 	"go/token"
 	"strings"
 
@@ -19,7 +20,8 @@ func init() {
 			"C12.4 the keys of Insert/Find/Delete are the base64 encoding of the TransactionID of the request resp. the decoded reply, or the key the timer carries (Transaction.Key, set from that encoding); " +
 			"C12.5 schedule constants located by use: the retransmission counter is compared with 7, incremented by one per timer firing and handed to the callback; the interval is doubled unconditionally and capped by a comparison with, and assignment of, 1.6 s; " +
 			"C12.6 Transaction.Close is called only from CloseAndDeleteAll, which is called only from Client.Close with mutexTrMap held; " +
-			"C12.7 a response whose transaction is not in the table is ignored: handleSTUNMessage returns nil on the not-found edge (the Listen loop ends on any error).",
+			"C12.7 a response whose transaction is not in the table is ignored: handleSTUNMessage returns nil on the not-found edge (the Listen loop ends on any error); " +
+			"C12.8 the message handed to the waiter is allocated for that packet and never recycled through a pool or remembered elsewhere (else the caller reads another transaction's response).",
 		NotCovered: "timing, loss/duplication schedules and 'never hangs' beyond these pairing rules; the scheduler.",
 		Run:        runC12,
 	})
@@ -711,6 +713,7 @@ func runC12(c *Ctx) {
 
 	// ---- C12.7
 	ruleLateResponsesIgnored(c, "C12.7")
+	ruleResultOwnedByWaiter(c, "C12.8")
 }
 
 func ruleLateResponsesIgnored(c *Ctx, rule string) {
@@ -849,4 +852,107 @@ func ruleTransactionPairing(c *Ctx, rule string) {
 		}
 	}
 
+}
+
+// ruleResultOwnedByWaiter (C12.8): the message handed to a waiting transaction is the
+// waiter's alone. Every TransactionResult written by the inbound path carries in Msg an
+// object this invocation owns exclusively — allocated for the packet, or taken out of a
+// sync.Pool — and on no path is that object (or the object it is part of) put back into a
+// pool after it was handed over, deferred puts included: a recycled message is decoded into
+// again while the caller of PerformTransaction still reads it — it would see another
+// transaction's response.
+func ruleResultOwnedByWaiter(c *Ctx, rule string) {
+	w := c.W
+	c.Rule(rule, "result ownership: the *stun.Message placed in TransactionResult.Msg by the inbound path is exclusively owned by this invocation (every origin, through helper results and phis, is an allocation or a sync.Pool.Get — never a remembered object), and on no path (helpers inlined, deferred calls replayed) does a sync.Pool.Put follow the hand-over", 1)
+	write := w.Func("client", "Transaction", "WriteResult")
+	handle := w.Func("turn", "Client", "handleSTUNMessage")
+	isPut := func(in ssa.Instruction) bool {
+		ci, ok := in.(ssa.CallInstruction)
+		if !ok {
+			return false
+		}
+		cal := ci.Common().StaticCallee()
+		return cal != nil && cal.String() == "(*sync.Pool).Put"
+	}
+	handsOver := func(in ssa.Instruction) (bool, []ssa.Value) {
+		call, ok := in.(*ssa.Call)
+		if !ok || call.Call.StaticCallee() != write || len(call.Call.Args) < 2 {
+			return false, nil
+		}
+		vals, ok := w.flow().structValueField(call.Call.Args[1], []string{"Msg"}, 0)
+		if !ok {
+			return true, nil
+		}
+		var out []ssa.Value
+		for _, mv := range vals {
+			if !isNilConst(stripIface(w.resolveLoad(mv))) {
+				out = append(out, mv)
+			}
+		}
+		return len(out) > 0, out
+	}
+	n := 0
+	w.eachInstrDeep(handle, func(in ssa.Instruction) {
+		is, vals := handsOver(in)
+		if !is {
+			return
+		}
+		n++
+		c.Anchor(rule, "result message")
+		if vals == nil {
+			c.Bad(rule, fname(in.Parent()), "result message", w.instrPos(in), "cannot identify the message placed in the TransactionResult")
+			return
+		}
+		for _, mv := range vals {
+			org := map[string]bool{}
+			w.ptrOrigins(mv, 5, map[ssa.Value]bool{}, org)
+			var bad []string
+			for k := range org {
+				if k != "fresh" && k != "pool" && k != "nil" {
+					bad = append(bad, k)
+				}
+			}
+			sort.Strings(bad)
+			if len(bad) > 0 || !(org["fresh"] || org["pool"]) {
+				c.Bad(rule, fname(in.Parent()), "result message", w.instrPos(in), fmt.Sprintf("the message handed to the waiting transaction is not owned by this invocation (origins: %v): a remembered message is overwritten by a later packet while the waiter still reads it", leafList(org)))
+			} else {
+				c.OK(rule, fname(in.Parent()), "result message", w.instrPos(in), "allocated for (or exclusively taken by) this invocation")
+			}
+		}
+	})
+	if n == 0 {
+		c.Anchor(rule, "result message")
+		c.Bad(rule, fname(handle), "result message", w.pos(handle.Pos()), "no TransactionResult with a message is written on the inbound path: anchor gone")
+		return
+	}
+	// no pool.Put after the hand-over, on any path
+	c.Anchor(rule, "no recycling after hand-over")
+	may := w.mayContain(func(in ssa.Instruction) bool {
+		is, _ := handsOver(in)
+		return is || isPut(in)
+	})
+	cfg := &ipCfg[bool]{w: w}
+	cfg.Inline = func(_ ssa.CallInstruction, h *ssa.Function) bool {
+		return w.IsMod[h] && h != write && may(h)
+	}
+	bad := ""
+	cfg.Step = func(in ssa.Instruction, handed bool, _ *pathEnv, _ []ssa.CallInstruction) bool {
+		if is, _ := handsOver(in); is {
+			return true
+		}
+		if handed && isPut(in) {
+			bad = "after the decoded message was handed to the waiting transaction, this invocation puts an object back into a sync.Pool at " + w.instrPos(in)
+		}
+		return handed
+	}
+	cfg.Return = func(*ssa.Return, bool, *pathEnv) {}
+	explorePaths(cfg, handle, false)
+	switch {
+	case cfg.Exhausted:
+		c.Bad(rule, fname(handle), "no recycling after hand-over", w.pos(handle.Pos()), "undecided: path exploration exceeded its budget")
+	case bad != "":
+		c.Bad(rule, fname(handle), "no recycling after hand-over", w.pos(handle.Pos()), bad+": the message is decoded into again for a later packet while the waiter still reads it — the caller would see another transaction's response")
+	default:
+		c.OK(rule, fname(handle), "no recycling after hand-over", w.pos(handle.Pos()), "no sync.Pool.Put is reachable after the hand-over")
+	}
 }
